@@ -24,6 +24,9 @@ Monitors (written against the property text, never against the model):
   * family "slow" (virtual clock): a frame much larger than the recv size arrives in fragments spaced by a
     fraction of the time-out, the transfer taking a multiple of it (quiet / busy write side) -> no disconnect,
     all frames delivered once in order; a silent connection (no bytes for longer than the time-out) disconnects
+  * family "drain" (monitor only, poller simulated faithfully: WRITE events only while subscribed for WRITE): a
+    burst of sends whose tail the socket does not take, then silence, the peer keeps reading -> the peer gets
+    the frames of all messages sent (D76)
   * family "resend" (monitor only): the write side across successive connections of one object — send() while
     DISCONNECTED then connect(); onDisconnected itself calls connect() and send() (EAGAIN / short / full
     acceptance) -> the bytes socket k accepted are a prefix of the frames of exactly the messages sent while
@@ -461,6 +464,8 @@ def gen_value(rng, big=False):
     if big and r < 0.6:
         n = rng.choice([8188, 8192, 8193, 16384, 3 * 8192 + 7, rng.randrange(8000, 40000)])
         return rng.randbytes(n)
+    if r < 0.07:        # every unpickled value is a message (D75): None and the other falsy ones too
+        return rng.choice([None, 0, "", [], {}, False, (), b"", 0.0])
     if r < 0.15:
         return rng.randrange(-5, 1000)
     if r < 0.3:
@@ -941,7 +946,9 @@ def gen_directed(env):
         out.append(c)
     # None as a message: the parse loop's sentinel
     n = t.vid(None)
-    c = rc("none-message", [a, n, b], [[fa + t.frame(n) + fb], [fa]], {"mon": "none"})
+    c = rc("none-message", [a, n, b], [[fa + t.frame(n) + fb], [fa]], {"mon": "valid", "sent": [a, n, b, a]})
+    falsy = [t.vid(x) for x in (0, "", [], {}, None, False, b"")]
+    c = rc("falsy-messages", falsy, [[b"".join(t.frame(i) for i in falsy)]], {"mon": "valid", "sent": falsy})
     return out
 
 
@@ -996,11 +1003,9 @@ def monitor(env, case, real, rng=None):
                                   % (bi, d[:8], sent[:bi], STATE_NAMES.get(real["state"]))})
         else:   # the bytes named by the length field decode: that message is what the frame says
             want = sent[:bi] + [ex["then"]]
-            nn = [i for i in want if env.table.vals[i] is not None]
-            if env.table.vals[ex["then"]] is not None and d[:len(want)] != want:
+            if d[:len(want)] != want:
                 v.append({"signature": "tcp_connection.read:delivered-differs:decodable-frame",
                           "what": "delivered %r, expected prefix %r" % (d[:8], want)})
-            del nn
     elif mon == "writer":
         t = env.table
         # messages sent since the last connect (the monitor's own bookkeeping)
@@ -1055,14 +1060,12 @@ def monitor(env, case, real, rng=None):
                               % (real["delivered"][:8], ex["done"][:8])})
     elif mon == "mixed":
         # whatever happened: delivered messages are, in order, messages of the peer's stream prefix
-        # (until the first corrupted frame this is exact; None is never delivered)
+        # (until the first corrupted frame this is exact; None is a message like any other)
         peer = [i for i in ex["peer"]]
         d = real["delivered"]
-        if any(env.table.vals[i] is None for i in d):
-            v.append({"signature": "tcp_connection.read:none-delivered", "what": "None was delivered as a message"})
         if ex.get("clean"):
             # one connection, an uncorrupted peer stream, any faults: what was delivered is a prefix of what the peer sent
-            want = [i for i in peer if env.table.vals[i] is not None]
+            want = list(peer)
             if d != want[:len(d)]:
                 v.append({"signature": "tcp_connection.read:delivered-differs:not-a-prefix",
                           "what": "delivered %r is not a prefix of the peer's messages %r" % (d[:8], want[:8])})
@@ -1534,6 +1537,163 @@ RESEND_FLOORS = ["resend:" + x for x in RESEND_VARIANTS] + ["resend:cause-" + x 
 
 
 # ------------------------------------------------------------------------------------------------
+# family "drain" (monitor only): a burst of sends whose tail the socket does not take at once, then the
+# application is silent.  The poller is simulated faithfully: a WRITE event is delivered only while the
+# connection's descriptor is subscribed for WRITE.  The peer keeps reading (every send() takes >= 1 byte).
+# monitor: the peer ends up with the frames of ALL messages sent (D76: before the repair the tail waits for the
+# next send()).
+# ------------------------------------------------------------------------------------------------
+DRAIN_LAST = ["eagain", "short", "zero"]
+
+
+def gen_drain(env, rng, n):
+    t = env.table
+    for j in range(n):
+        last = DRAIN_LAST[j % len(DRAIN_LAST)]
+        msgs = []
+        for _ in range(rng.randrange(1, 4)):
+            big = rng.random() < 0.4
+            m = t.vid(rng.randbytes(rng.randrange(3000, 40000)) if big else gen_value(rng))
+            script = [x for x in gen_send_script(rng, 5) if x not in ("e", -1)]
+            msgs.append([m, script])
+        # the last send certainly leaves bytes behind
+        msgs[-1][1] = {"eagain": ["a"], "short": [rng.randrange(1, 4), "a"], "zero": [0]}[last]
+        yield {"kind": "drain", "last": last, "init": rng.choice(["socket", "connect"]),
+               "warm_write_events": rng.randrange(1, 3), "msgs": msgs,
+               "accept": rng.choice([1, 7, 100, 4096, 10 ** 9]), "both_bits": rng.random() < 0.3}
+
+
+def run_drain(env, dc, rounds=400):
+    tc, t = env.tc, env.table
+    POLL = env.pl.POLL_EVENT_TYPE
+    poller = FakePoller()
+    obs = {"exc": [], "ndisc": 0, "write_events": 0}
+
+    def on_disc():
+        obs["ndisc"] += 1
+    env.clock[0] = 0
+    kw = dict(onDisconnected=on_disc, timeout=10 ** 6)
+    if dc["init"] == "socket":
+        sock = FakeSocket(env.cov)
+        env.last_sock[0] = sock
+        conn = tc.TcpConnection(poller, socket=sock, **kw)
+    else:
+        conn = tc.TcpConnection(poller, **kw)
+        env.connect_ok[0] = True
+        env.next_sends[:] = []
+        conn.connect("127.0.0.1", 4321)
+        sock = env.last_sock[0]
+
+    def fire(mask, sends):
+        sock.sends = list(sends)
+        sock.recvs = []
+        sock.so_next = False
+        try:
+            conn._TcpConnection__processConnection(sock.fd, mask)
+        except Exception as e:   # noqa
+            if isinstance(e, AssertionError) and "harness bug" in str(e):
+                raise
+            obs["exc"].append(type(e).__name__)
+
+    def poll_once(sends):
+        """what a real poller does for a writable, not readable socket"""
+        m = poller.masks.get(sock.fd, 0)
+        if m & POLL.WRITE:
+            obs["write_events"] += 1
+            fire(POLL.WRITE, sends)
+            return True
+        return False
+    for _ in range(dc["warm_write_events"] + (1 if dc["init"] == "connect" else 0)):
+        poll_once([10 ** 9])
+    obs["mask_before_burst"] = poller.masks.get(sock.fd, -1)
+    for m, script in dc["msgs"]:
+        env.clock[0] += 1
+        sock.sends = list(script)
+        try:
+            conn.send(t.vals[m])
+        except Exception as e:   # noqa
+            obs["exc"].append("send:" + type(e).__name__)
+    obs["pending_after_burst"] = len(conn._TcpConnection__writeBuffer)
+    obs["mask_after_burst"] = poller.masks.get(sock.fd, -1)
+    total = sum(len(t.frame(m)) for m, _ in dc["msgs"])
+    k = max(dc["accept"], total // (rounds // 2) + 1)
+    n = 0
+    while n < rounds and conn.state == 2:
+        n += 1
+        env.clock[0] += 1
+        if not poll_once([k]):          # nothing subscribed for WRITE: a real poller sleeps
+            break
+    obs["rounds"] = n
+    obs["state"] = conn.state
+    obs["wbuf"] = len(conn._TcpConnection__writeBuffer)
+    obs["wire"] = bytes(sock.wire)
+    obs["mask_end"] = poller.masks.get(sock.fd, -1)
+    return obs
+
+
+def monitor_drain(env, dc, obs):
+    t = env.table
+    v = []
+    for x in obs["exc"]:
+        v.append({"signature": "tcp_connection.drain:exception-escaped:" + x, "what": "exception escaped: " + x})
+    F = b"".join(t.frame(m) for m, _ in dc["msgs"])
+    if obs["wire"] != F:
+        if obs["wire"] == F[:len(obs["wire"])] and obs["state"] == 2:
+            v.append({"signature": "tcp_connection.write:partial-write-never-flushed",
+                      "what": "%d messages sent, the last send() left %d bytes in the write buffer (%s); the peer keeps reading "
+                              "and the poller keeps running (%d WRITE events delivered, subscription mask %s), nothing further is "
+                              "sent: the peer has %d of %d bytes, %d bytes still pending"
+                              % (len(dc["msgs"]), obs["pending_after_burst"], dc["last"], obs["write_events"],
+                                 obs["mask_after_burst"], len(obs["wire"]), len(F), obs["wbuf"])})
+        else:
+            v.append({"signature": "tcp_connection.drain:wire-differs",
+                      "what": "peer has %d bytes, frames of the sent messages are %d bytes, state %s"
+                              % (len(obs["wire"]), len(F), STATE_NAMES.get(obs["state"]))})
+    elif obs["state"] != 2 or obs["ndisc"]:
+        v.append({"signature": "tcp_connection.drain:disconnected",
+                  "what": "benign writes only, connection is %s" % STATE_NAMES.get(obs["state"])})
+    return v
+
+
+def public_drain(env, dc):
+    c = json.loads(json.dumps(dc))
+    c["vals"] = {str(m): env.pk.dumps(env.table.vals[m]).hex() for m, _ in dc["msgs"]}
+    return c
+
+
+def load_drain(env, pc):
+    remap = {int(k): env.table.vid(env.pk.loads(bytes.fromhex(h))) for k, h in pc.get("vals", {}).items()}
+    c = {k: v for k, v in pc.items() if k != "vals"}
+    c["msgs"] = [[remap.get(m, m), sc] for m, sc in pc["msgs"]]
+    return c
+
+
+def run_drain_family(env, rng, n, cov, out, seen=None):
+    cnt = 0
+    for dc in gen_drain(env, rng, n):
+        cnt += 1
+        obs = run_drain(env, dc)
+        for key in ("drain:last-" + dc["last"], "drain:init-" + dc["init"]):
+            cov[key] = cov.get(key, 0) + 1
+        if obs["mask_before_burst"] == 5 and obs["pending_after_burst"] > 0:
+            cov["drain:tail-pending-with-write-interest-dropped"] = cov.get("drain:tail-pending-with-write-interest-dropped", 0) + 1
+        if obs["pending_after_burst"] > 8192:
+            cov["drain:tail>8192"] = cov.get("drain:tail>8192", 0) + 1
+        if seen is not None:
+            seen.add(hashlib.sha1(json.dumps(dc, sort_keys=True).encode()).hexdigest())
+        for x in monitor_drain(env, dc, obs):
+            cov["violations"] = cov.get("violations", 0) + 1
+            if x["signature"] not in [y["signature"] for y in out] and len(out) < 8:
+                x["replay"] = public_drain(env, dc)
+                out.append(x)
+    return cnt
+
+
+DRAIN_FLOORS = ["drain:last-" + x for x in DRAIN_LAST] + ["drain:init-socket", "drain:init-connect",
+                                                          "drain:tail-pending-with-write-interest-dropped", "drain:tail>8192"]
+
+
+# ------------------------------------------------------------------------------------------------
 # compare / shrink
 # ------------------------------------------------------------------------------------------------
 def first_diff(model, real):
@@ -1736,6 +1896,9 @@ def run(ctx):
                                  res["violations"], seen)
         res["cases"] += nres
         kinds["resend"] = nres
+        ndr = run_drain_family(env, ctx.rng("tcp_framing/drain"), ctx.scale(150, 3000), cov, res["violations"], seen)
+        res["cases"] += ndr
+        kinds["drain"] = ndr
         res["distinct"] = len(seen)
         cov["kinds"] = kinds
         for c in sample_src:
@@ -1755,7 +1918,7 @@ def run(ctx):
                   "class:undecodable", "class:incomplete", "class:decodes", "ev:send", "ev:poll", "ev:disc", "ev:conn",
                   "payload>8192", "disconnects"] + ["reconnect:" + x for x in RECONNECT_PATTERNS + RECONNECT_MODES] + \
                  ["reconnect:old-data-fully-read", "reconnect:delivered-on-new-connection"] + \
-                 ["timeout:" + x for x in SLOW_KINDS] + RESEND_FLOORS
+                 ["timeout:" + x for x in SLOW_KINDS] + RESEND_FLOORS + DRAIN_FLOORS
         missing = [f for f in floors if not cov.get(f)]
         if missing:
             res["inconclusive"] = "coverage floor missed: " + ", ".join(missing)
@@ -1781,6 +1944,7 @@ def search(ctx, unproved):
                         out.append(x)
             run_reconnect_family(env, ctx.rng("tcp_framing/search-reconnect/%d" % salt), 240, cov, out)
             run_resend_family(env, ctx.rng("tcp_framing/search-resend/%d" % salt), 300, cov, out)
+            run_drain_family(env, ctx.rng("tcp_framing/search-drain/%d" % salt), 90, cov, out)
             if out:
                 break
     return out
@@ -1790,6 +1954,17 @@ def replay(ctx, violation):
     pc = violation.get("replay")
     if not pc:
         return {"violated": False, "note": "no replay data in the violation record"}
+    if pc.get("kind") == "drain":
+        with Env(ctx.repo, {}) as env:
+            dc = load_drain(env, pc)
+            obs = run_drain(env, dc)
+            viol = monitor_drain(env, dc, obs)
+            return {"violated": bool(viol), "violations": viol,
+                    "implementation": {k: (v if k != "wire" else len(v)) for k, v in obs.items()},
+                    "expect": "peer receives %d bytes = frames of %d messages" % (
+                        sum(len(env.table.frame(m)) for m, _ in dc["msgs"]), len(dc["msgs"])),
+                    "model": "theorems write_interest_armed / write_buffer_drains; this family is a monitor on the real "
+                             "code with a faithfully simulated poller"}
     if pc.get("kind") == "resend":
         with Env(ctx.repo, {}) as env:
             sc = load_resend(env, pc)
